@@ -27,7 +27,8 @@ def seed():
         return 0
 
 
-class CaseTimeout(Exception):
+class CaseTimeout(BaseException):
+    """BaseException so that a check's own `except Exception` cannot swallow the watchdog."""
     pass
 
 
